@@ -36,6 +36,11 @@ struct module {
     int visited;
 };
 
+/** Value of module::visited once its post-init has run; while a
+ * module's dependencies are being walked it holds the walk number.
+ */
+#define MODULE_DONE (-1)
+
 static struct set modules;
 static struct module *loading_module;
 static struct string_vector module_path;
@@ -199,9 +204,11 @@ static int module_dfs(struct module *module, int visit)
     void (*func)(struct module *self);
     int res;
 
-    if (module->visited && (module->visited < visit))
+    /* Finished in this walk (MODULE_DONE) or in an earlier one. */
+    if ((module->visited == MODULE_DONE)
+        || (module->visited && (module->visited < visit)))
         return 0;
-    module->visited = visit;
+    module->visited = visit; /* in progress */
 
     for (ii = 0; ii < module->depends.used; ++ii) {
         struct module *other = module_get(module->depends.vec[ii]);
@@ -219,6 +226,7 @@ static int module_dfs(struct module *module, int visit)
     if (module->handle
         && (func = dlsym(module->handle, "module_post_init")))
         func(module);
+    module->visited = MODULE_DONE;
     return 0;
 }
 
